@@ -224,8 +224,17 @@ class Intervals:
                 return clip(v, rng)
             return rng
         if k == 'bin':
-            return self.binop(r['op'], self.operand(st, r['a']), self.operand(st, r['b']), dest_ty
-                              if not r['op'].endswith('WithOverflow') else self.operand_ty(r['a']))
+            v = self.binop(r['op'], self.operand(st, r['a']), self.operand(st, r['b']), dest_ty
+                           if not r['op'].endswith('WithOverflow') else self.operand_ty(r['a']))
+            if r['op'].startswith('Sub') and st.get('R'):
+                ra, rb = self.root_local(st, r['a']), self.root_local(st, r['b'])
+                if ra is not None and rb is not None and (rb, ra) in st['R']:
+                    # b <= a is known: the difference is non-negative
+                    if v is not None and v[0] == 'ovf':
+                        v = ('ovf', (max(v[1][0], 0), max(v[1][1], 0)), v[2])
+                    elif v is not None and v[0] not in ('tup',):
+                        v = (max(v[0], 0), max(v[1], 0))
+            return v
         if k == 'un':
             v = self.operand(st, r['a'])
             if r['op'] == 'Not' and dest_ty == 'bool' and v is not None and v[0] not in ('ovf', 'tup'):
@@ -241,14 +250,32 @@ class Intervals:
 
     # ---------------- transfer
     def new_state(self):
-        return {'L': {}, 'M': {}, 'C': {}, 'MF': {}}
+        return {'L': {}, 'M': {}, 'C': {}, 'MF': {}, 'R': set()}
 
     def copy_state(self, st):
-        return {'L': dict(st['L']), 'M': dict(st['M']), 'C': dict(st['C']), 'MF': dict(st.get('MF', {}))}
+        return {'L': dict(st['L']), 'M': dict(st['M']), 'C': dict(st['C']), 'MF': dict(st.get('MF', {})),
+                'R': set(st.get('R', ()))}
 
     def kill_copies_of(self, st, l):
         for t in [t for t, s in st['C'].items() if s == ('L', l) or t == l]:
             del st['C'][t]
+        if st.get('R'):
+            st['R'] = {(a, b) for (a, b) in st['R'] if a != l and b != l}
+
+    def root_local(self, st, o):
+        """root local an operand is an (unmodified) copy of, or None"""
+        pl = o.get('c') or o.get('m')
+        if pl is None or 'pj' in pl:
+            return None
+        l = pl['l']
+        seen = set()
+        while l not in seen:
+            seen.add(l)
+            src = st['C'].get(l)
+            if src is None or src[0] != 'L':
+                break
+            l = src[1]
+        return l
 
     def invalidate_mem(self, st):
         for k in [k for k, fz in st.get('MF', {}).items() if not fz]:
@@ -376,6 +403,15 @@ class Intervals:
         op = r['op']
         if not truth:
             op = {'Lt': 'Ge', 'Le': 'Gt', 'Gt': 'Le', 'Ge': 'Lt', 'Eq': 'Ne', 'Ne': 'Eq'}[op]
+        ra, rb = self.root_local(st, r['a']), self.root_local(st, r['b'])
+        if ra is not None and rb is not None and ra != rb:
+            if op in ('Lt', 'Le'):
+                st['R'].add((ra, rb))
+            elif op in ('Gt', 'Ge'):
+                st['R'].add((rb, ra))
+            elif op == 'Eq':
+                st['R'].add((ra, rb))
+                st['R'].add((rb, ra))
         a = self.operand(st, r['a'])
         b = self.operand(st, r['b'])
         if a is None or b is None or a[0] in ('ovf', 'tup') or b[0] in ('ovf', 'tup'):
@@ -546,11 +582,13 @@ class Intervals:
         mf = dict(a.get('MF', {}))
         mf.update(b.get('MF', {}))
         out['MF'] = mf
+        out['R'] = set(a.get('R', ())) & set(b.get('R', ()))
         return out
 
     def widen(self, old, new):
         out = self.copy_state(new)
         out['MF'] = dict(new.get('MF', {}))
+        out['R'] = set(new.get('R', ())) & set(old.get('R', ()))
         for l, v in list(new['L'].items()):
             o = old['L'].get(l)
             if o is None or v == o:
@@ -569,7 +607,7 @@ class Intervals:
 
     @staticmethod
     def state_eq(a, b):
-        return a['L'] == b['L'] and a['M'] == b['M'] and a['C'] == b['C']
+        return a['L'] == b['L'] and a['M'] == b['M'] and a['C'] == b['C'] and a.get('R', set()) == b.get('R', set())
 
 
 # --------------------------------------------------------------------------- field invariants
